@@ -21,7 +21,7 @@ ASSUMPTIONS = [
     "T-node emit log = bytes returned by node.emit during Program.emit (producer); write_block calls (consumer)",
 ]
 WEIGHTS = dict(ins=5, data=6, label=2, block=1.5, scope=0.8, macro=0.8, call=2, for_=1, if_=0.6, assign=1, sym=0.6, org=3.5, reloc=2.5,
-               ascii=1.5, incbin=0.8, branch=0.0)
+               ascii=1.5, incbin=0.8, branch=0.0, table=0.4, text=0.8, include=0.5)
 
 
 def plan(tier: str, seed: int) -> list[dict]:
